@@ -9,7 +9,10 @@ From MevVerif Require Import lib.Bytes model.TxMonitor.
 Import ListNotations.
 Open Scope N_scope.
 
-Inductive item := Ev (e : event) | ObsPending (l : list N).
+Inductive item :=
+| Ev (e : event)
+| ObsPending (l : list N)       (* PendingTxns() at a quiescent point *)
+| ObsBusy (b : bool).           (* at a quiescent point: is a receipt batch / individual query of check() in progress? *)
 
 Record case := {
   id : N;
@@ -66,10 +69,13 @@ Record acc := {
   st : mon;                    (* the model, run alongside *)
   due : list (N * wout);       (* (waiter, outcome) owed after a definite answer of the node *)
   stale : bool; foreign : bool;
-  pend_mis : bool
+  pend_mis : bool;
+  stalled : bool;              (* a check that had to run (snapshot taken, waiters in it) issued no query *)
+  busy_mis : bool
 }.
 
-Definition start : acc := {| st := init; due := []; stale := false; foreign := false; pend_mis := false |}.
+Definition start : acc := {| st := init; due := []; stale := false; foreign := false; pend_mis := false;
+                             stalled := false; busy_mis := false |}.
 
 Definition waiters_at (s : mon) (n h : N) : list N := map waiter_of (filter (key_is n h) (wait s)).
 
@@ -98,13 +104,24 @@ Definition step_item (outs : list (N * list wout)) (a : acc) (it : item) : acc :
             end
         | _, _ => []
         end in
-      {| st := step current s e; due := due a ++ d; stale := stale a; foreign := foreign a; pend_mis := pend_mis a |}
+      {| st := step current s e; due := due a ++ d; stale := stale a; foreign := foreign a; pend_mis := pend_mis a;
+         stalled := stalled a; busy_mis := busy_mis a |}
   | ObsPending l =>
       let s := st a in
       {| st := s; due := due a;
          stale := stale a || existsb (told outs s) l;
          foreign := foreign a || negb (subsetN l (sent s));
-         pend_mis := pend_mis a || negb (same_set l (pending_hashes s)) |}
+         pend_mis := pend_mis a || negb (same_set l (pending_hashes s));
+         stalled := stalled a; busy_mis := busy_mis a |}
+  | ObsBusy b =>
+      (* the checker is inside check() exactly while the model is InFlight (C09_new_block_starts_check,
+         C09_snapshot_covers: a handed-over check with waiters below the confirmed nonce asks the node) *)
+      let s := st a in
+      let inflight := match chk s with InFlight _ _ _ => true | _ => false end in
+      {| st := s; due := due a; stale := stale a; foreign := foreign a; pend_mis := pend_mis a;
+         stalled := stalled a || (negb b && negb (panicked s) &&
+                                  match chk s with InFlight _ (_ :: _) [] => true | _ => false end);
+         busy_mis := busy_mis a || negb (Bool.eqb b inflight) |}
   end.
 
 Definition replay (c : case) : acc := fold_left (step_item (outs c)) (items c) start.
@@ -115,7 +132,7 @@ Definition agrees (c : case) : bool :=
   let s := st a in
   if crashed c then panicked s
   else
-    negb (panicked s) && close_ok c && negb (pend_mis a) &&
+    negb (panicked s) && close_ok c && negb (pend_mis a) && negb (busy_mis a) &&
     forallb (fun e => wouts_eqb (outcomes_of s (fst e)) (snd e)) (outs c) &&
     same_set (refusedw c) (refused s).
 
@@ -174,6 +191,7 @@ Definition violation_keys (c : case) : list string :=
                         | Some _ => true
                         | None => false
                         end) (due a)
+      || stalled a
       || (wl_exited s &&
           existsb (fun e => match snd e, tx_of (fst e) (watchers s) with [], Some _ => true | _, _ => false end) (outs c))
    then ["unresolved"%string] else []) ++
